@@ -79,6 +79,19 @@ def own_pubrel(F, R, ver):
         from_arg = any(l[0] == 'arg' and l[1] == 2 for l in og)
         R.ob('C14.own-pubrel', '%s|release_publish|PUBREL-carries-argument' % ver, is_rel and from_arg, 'the packet written is not PublishRelease(<argument>) (origin %s)' % sorted(map(str, og))[:4], b.loc(bi))
         R.ob('C14.own-pubrel', '%s|release_publish|not-in-loop' % ver, bi not in b.reachable_after(bi), 'PUBREL written in a loop', b.loc(bi))
+    # a receiver that was taken out of the store belongs to an exchange whose PUBREL is now due: from the Some edge of the
+    # keyed removal no return is reachable without the wire write (the only refusal is "no such id")
+    for xb, t in b.calls():
+        if re.search(r'::(remove|remove_entry|take)$', callee_name(t) or '') and (call_recv_path(b, t, 0) or ('',))[-1] == 'rx':
+            r = discr_switch_after_call(b, xb)
+            if not r:
+                R.undecided('C14.own-pubrel', '%s|release_publish|receiver-taken=>PUBREL-written' % ver, 'the result of the keyed removal is not matched right after the call', b.loc(xb))
+                continue
+            sb, tg, oth = r
+            some_t = tg.get(1, oth)
+            lost = sorted(set(b.returns()) & b.reachable(some_t, avoid={x for x, _ in encs}))
+            R.ob('C14.own-pubrel', '%s|release_publish|receiver-taken=>PUBREL-written' % ver, bool(encs) and not lost,
+                 'release_publish removes the completion receiver of the exchange from the store and can then return without writing the PUBREL (a further condition on the Some side): the receiver is dropped, the exchange can never complete and keeps its window slot and id', b.loc(xb))
     # Drop / release typestate
     d = F.one(r'^<%s::sink::PublishReceived as std::ops::Drop>::drop$' % ver)
     takes = [(bi, t) for bi, t in d.calls_to(r'^std::option::Option::<T>::take$')]
@@ -95,6 +108,9 @@ def own_pubrel(F, R, ver):
     takes = [bi for bi, t in rl.calls_to(r'^std::option::Option::<T>::take$')]
     rels = [bi for bi, t in rl.calls_to(r'^%s::shared::MqttShared::release_publish$' % ver)]
     R.ob('C14.own-pubrel', '%s|PublishReceived::release|takes-then-releases-once' % ver, len(takes) == 1 and len(rels) == 1 and rl.must_pass(set(takes), rels[0]), 'release(self) must take the Option before calling release_publish (so Drop does not release again)')
+    skipped = sorted(set(rl.returns()) & rl.reachable(0, avoid=set(rels)))
+    R.ob('C14.own-pubrel', '%s|PublishReceived::release|every-completion-went-through-release_publish' % ver, bool(rels) and not skipped,
+         'release() can complete without calling release_publish (e.g. depending on the PUBREC reason code): the caller is told Ok although no PUBREL was written, the exchange stays outstanding', rl.loc(skipped[0]) if skipped else None)
     gates = [bi for bi, t in rl.calls_to(r'^%s::shared::MqttShared::(wait_readiness|is_ready)$' % ver)]
     ys_before = [y for y in rl.yields() if rels and rels[0] in rl.reachable_after(y)]
     R.ob('C14.own-pubrel', '%s|PublishReceived::release|not-gated-by-the-window' % ver, not gates and not ys_before,
